@@ -114,6 +114,9 @@ EXTRA = {
 EXTRA4 = {'C01': ' Signed-zero variants (-0.0) of every family member; ulp windows around points of slanted ring edges against an exact point-in-ring oracle.', 'C02': ' Signed-zero variants of shapes and query coordinates.', 'C03': ' Triples at the ends of the exponent range (2^-600, 2^600: known finding in the robust dependency), reversed rings and rings used as holes in the ulp windows, -0.0 checks.', 'C04': ' clip with empty subject / empty clipping polygon under both values of invert.', 'C05': ' Integer rings far from the origin (i16 at 20000, i32 at 1e8, i64 at 3e9).', 'C06': ' MultiPolygons mixing zero-area members with areal ones; polygons with degenerate holes.', 'C09': ' Tolerance alphabet down to 1e-20; three different interior rings must come back in order.', 'C10': ' ulp windows around points of slanted chain segments for the MonoPoly point location.', 'C12': ' Nested MultiPolygons (island in a lake); every geometry type at extent 2^-600 queried from an ordinary distance.', 'C13': ' Winding order of closed line strings under maps of either determinant sign.', 'C14': ' Huge finite ordinates (f64::MAX, -f64::MAX, 1.5e308) must stay valid; EMPTY members in every position.', 'C15': ' Also a 2^-60 twin.', 'C18': ' Rect::try_new with corners in every relative position.', 'C20': ' Large triangulation inputs (1500 scattered points; 416 constraint segments with 8 crossing pairs; a 10x10 grid of squares) under every hash seed, pool size and call history.'}
 for _k, _v in EXTRA4.items():
     EXTRA[_k] = EXTRA.get(_k, "") + _v
+EXTRA5 = {'C01': ' Polygons written from their least vertex with a repeated closing coordinate.', 'C02': ' i64 / i32 predicates on points within two units of a long diagonal (products fit the type) against the i128 determinant.', 'C04': ' unary_union over one-member MultiPolygon items; clip of comb lines with up to 9000 (thorough 70001) coordinates against exact lengths.', 'C05': ' Scales 2^-30, 2^-200, 2^60 and f32 twins at the small scales.', 'C07': ' The deprecated EuclideanDistance impls; polygons with holes inside donut holes; point-point and point-segment forms at 2^520 / 2^-601 (f32 2^64 / 2^-80).', 'C08': ' i64 point sets with extent 2^30 whose candidates differ by a few units in distance from the chord (Bezout construction); thin triangles of exactly three coordinates in every entry point (f64 at 2^27, f32 at 2^12).', 'C09': ' Index variants on translated (2^52; f32 2^23), scaled (2^-600 .. 2^500) and f32 twins, judged against the property on the integer input.', 'C10': ' stitch of nested rings (up to five levels) with the triangle list in every rotation, reversed and interleaved; hand-picked polygons with several kinds of ring contact.', 'C13': ' Similarity maps with factors 2^-60 and 2^-200; the winding of a ring rewritten with a repeated closing coordinate.', 'C15': ' densify of polygons with three interiors, MultiLineString / MultiPolygon position by position; 10^3 .. 10^6 pieces per edge in f64 and f32.', 'C16': ' The deprecated per-function traits as entry points; polar partners (rhumb at the south pole: two known findings); journeys of several circumferences; MultiLineString lengths with degenerate members in every position.', 'C17': ' Members listed twice (mod-2 boundary).', 'C18': ' Rect::split_x / split_y incl. widths that overflow.', 'C19': ' Polygons whose exterior has one coordinate.', 'C20': ' Operations on (p, equal copy of p) against (p, p itself).'}
+for _k, _v in EXTRA5.items():
+    EXTRA[_k] = EXTRA.get(_k, "") + _v
 EXTRA["C11"] = " Every lattice case is repeated at the exact scales 2^-30 and 2^30 (bit-identical answer after scaling back) and in f32."
 EXTRA["C16"] = " points_along_line against distance / point_at_distance_between of the same metric space; a Neptune-sized HaversineMeasure."
 
